@@ -113,6 +113,30 @@ theorem scanMin_lt (m x : Int) (rest : List Int) (h : x < m) : scanMin m (x :: r
     have := (foldl_min_le ((y :: rest).takeWhile (· < m)) x).1
     omega
 
+theorem scanMinLe_mem (m : Int) (side : List Int) : scanMinLe m side ∈ m :: side := by
+  match side with
+  | [] => simp [scanMinLe]
+  | [x] =>
+    simp only [scanMinLe]
+    by_cases hxy : x ≤ m
+    · rw [Int.min_eq_left hxy]; simp
+    · rw [Int.min_eq_right (by omega)]; simp
+  | x :: y :: rest =>
+    simp only [scanMinLe]
+    have := foldl_min_mem ((y :: rest).takeWhile (· ≤ m)) x
+    rcases List.mem_cons.mp this with h | h
+    · rw [h]; simp
+    · have := (List.takeWhile_sublist (fun z => decide (z ≤ m))).subset h
+      exact List.mem_cons_of_mem _ (List.mem_cons_of_mem _ this)
+
+theorem scanMinLe_lt (m x : Int) (rest : List Int) (h : x < m) : scanMinLe m (x :: rest) < m := by
+  match rest with
+  | [] => simp only [scanMinLe]; omega
+  | y :: rest =>
+    simp only [scanMinLe]
+    have := (foldl_min_le ((y :: rest).takeWhile (· ≤ m)) x).1
+    omega
+
 /-- what the per-peak function must deliver: a whole cycle between distinct points of the record -/
 def PeakFn (f : List Int → Int → List Int → Option Cyc) : Prop :=
   ∀ (p : Int) (l : List Int) (cur next : Int) (r : List Int) (c : Cyc), cur > p → cur > next →
@@ -173,19 +197,19 @@ theorem peaksGo_total (f : List Int → Int → List Int → Option Cyc)
       | [_], _ => right; simp
       | a :: b :: r, hne => exact (hne a b r rfl).elim
 
-theorem rychlik_fn : PeakFn (fun l m r => some ⟨max (scanMin m l) (scanMin m r), m, false⟩) := by
+theorem rychlik_fn : PeakFn (fun l m r => some ⟨max (scanMin m l) (scanMinLe m r), m, false⟩) := by
   intro p l cur next r c hp hn hc
   simp only [Option.some.injEq] at hc; subst hc
   have h1 := scanMin_mem cur (p :: l)
-  have h2 := scanMin_mem cur (next :: r)
+  have h2 := scanMinLe_mem cur (next :: r)
   have h3 := scanMin_lt cur p l hp
-  have h4 := scanMin_lt cur next r hn
+  have h4 := scanMinLe_lt cur next r hn
   refine ⟨⟨?_, by simp, ?_⟩, rfl⟩
-  · show max (scanMin cur (p :: l)) (scanMin cur (next :: r)) ∈ _
-    by_cases hle : scanMin cur (p :: l) ≤ scanMin cur (next :: r)
+  · show max (scanMin cur (p :: l)) (scanMinLe cur (next :: r)) ∈ _
+    by_cases hle : scanMin cur (p :: l) ≤ scanMinLe cur (next :: r)
     · rw [Int.max_eq_right hle]; simp at h2 ⊢; grind
     · rw [Int.max_eq_left (by omega)]; simp at h1 ⊢; grind
-  · show max (scanMin cur (p :: l)) (scanMin cur (next :: r)) ≠ cur
+  · show max (scanMin cur (p :: l)) (scanMinLe cur (next :: r)) ≠ cur
     omega
 
 theorem johannesson_fn : PeakFn (fun l m _ => some ⟨scanMin m l, m, false⟩) := by
